@@ -81,6 +81,11 @@ def stepW (w : World) (toks : List String) : World × String :=
         (w, s!"err {showErr e} {st}")
       | (.hostPanic, _) => (w, "panic")
     | _, _ => (w, "bad-op")
+  | ["ad", v, l] => match v.toNat?, Driver.hex? l with
+    | some v, some l => (w, match adBytes v l with
+      | some b => Driver.toHex b
+      | none => "panic")
+    | _, _ => (w, "bad-op")
   | ["msg", bs] => match Driver.hex? bs with
     | some bs => (w, match msgParse bs with
       | .ok (true, n) => s!"data {n}"
@@ -136,7 +141,7 @@ def step (st : St) (toks : List String) : St × String :=
       match c.toNat?.bind (openEnd st) with
       | some i => let (w', r) := stepW st.w [op, toString i, x]; ({ st with w := w' }, r)
       | none => (st, if c.toNat?.isSome then "err NoChannel" else "bad-op")
-    else (st, "bad-op")
+    else let (w', r) := stepW st.w toks; ({ st with w := w' }, r)
   | _ => let (w', r) := stepW st.w toks; ({ st with w := w' }, r)
 
 def main : IO Unit := Driver.run step ({} : St)
